@@ -564,31 +564,6 @@ fn build_decoys(claims: &mut Value, decoy_count: i32) -> Result<Vec<Decoy>, Erro
     Ok(decoy_list)
 }
 
-/// Verification hooks, compiled only with `--cfg sdjwt_verif`: the private functions of this module made
-/// callable for the function-level correspondence runs of the verification harness. They add no
-/// behaviour of their own.
-#[cfg(sdjwt_verif)]
-pub mod verif_hooks {
-    use super::*;
-
-    pub fn reject_reserved_names(claims: &Value, top_level: bool) -> Result<(), Error> {
-        super::reject_reserved_names(claims, top_level)
-    }
-
-    pub fn parent_elem_from_path(path: &str) -> Result<(String, String), Error> {
-        super::parent_elem_from_path(path).map(|(p, e)| (p.to_string(), e.to_string()))
-    }
-
-    pub fn build_disclosure(claims: &mut Value, disclosable_claim: &str) -> Result<Disclosure, Error> {
-        super::build_disclosure(claims, disclosable_claim)
-    }
-
-    pub fn build_decoys(claims: &mut Value, decoy_count: i32) -> Result<Vec<String>, Error> {
-        super::build_decoys(claims, decoy_count)
-            .map(|decoys| decoys.iter().map(|decoy| decoy.digest().clone()).collect())
-    }
-}
-
 #[cfg(test)]
 mod tests {
     use super::*;
@@ -705,5 +680,30 @@ mod tests {
             .disclosable("/address/locality")
             .decoy(10);
         encode_and_test(&mut issuer, &issuer_private_key, 4)
+    }
+}
+
+/// Verification hooks, compiled only with `--cfg sdjwt_verif`: the private functions of this module made
+/// callable for the function-level correspondence runs of the verification harness. They add no
+/// behaviour of their own.
+#[cfg(sdjwt_verif)]
+pub mod verif_hooks {
+    use super::*;
+
+    pub fn reject_reserved_names(claims: &Value, top_level: bool) -> Result<(), Error> {
+        super::reject_reserved_names(claims, top_level)
+    }
+
+    pub fn parent_elem_from_path(path: &str) -> Result<(String, String), Error> {
+        super::parent_elem_from_path(path).map(|(p, e)| (p.to_string(), e.to_string()))
+    }
+
+    pub fn build_disclosure(claims: &mut Value, disclosable_claim: &str) -> Result<Disclosure, Error> {
+        super::build_disclosure(claims, disclosable_claim)
+    }
+
+    pub fn build_decoys(claims: &mut Value, decoy_count: i32) -> Result<Vec<String>, Error> {
+        super::build_decoys(claims, decoy_count)
+            .map(|decoys| decoys.iter().map(|decoy| decoy.digest().clone()).collect())
     }
 }
